@@ -28,6 +28,7 @@ class FakeSub:
     PIPE = -1
     next_id = 5000
     sbatch_calls = []
+    fail_squeue = False        # the scheduler's status query fails (for every retry) while set
 
     class Popen:
         def __init__(self, command, stdout=None, stderr=None, cwd=None, **kw):
@@ -36,6 +37,9 @@ class FakeSub:
 
         def communicate(self):
             self.returncode = 0
+            if self.command[0] == "squeue" and FakeSub.fail_squeue:
+                self.returncode = 1
+                return b"", b"slurm_load_jobs error: Socket timed out on send/recv operation"
             if self.command[0] == "sbatch":
                 FakeSub.next_id += 1
                 FakeSub.sbatch_calls.append(self.command[1])
@@ -152,6 +156,10 @@ def fabricate(out, sub):
     cluster.config.completed_jobs = sum(1 for s in states if s == "d") if cm is None else cm
     cluster.config.is_canceled = bool(sub.get("canceled"))
     cluster.job_status.batch_index = sub.get("batchIndex", 1)
+    if sub.get("leftoverIds"):
+        # SLURM: the last node's own try-submit-jobs always sees its own batch as RUNNING, so a completed submission
+        # still lists that HPC job id - the next submitter round (resubmit-jobs' own) polls the scheduler for it
+        cluster.job_status.hpc_job_ids = list(sub["leftoverIds"])
     cluster.serialize("fabricate")
     cluster.serialize_jobs("fabricate")
     summary = sub.get("summary", "rows")
@@ -330,6 +338,8 @@ def inject(fail, on_round):
             def bad_load(*a, **kw):
                 raise Injected("injected: JobSubmitter.load")
             patch(JobSubmitter, "load", staticmethod(bad_load))
+        if fail == "squeue":
+            FakeSub.fail_squeue = True
         orig_submit = JobSubmitter.submit_jobs
 
         def submit_jobs(self, cluster, force_local=False):
@@ -347,6 +357,7 @@ def inject(fail, on_round):
         patch(JobSubmitter, "submit_jobs", submit_jobs)
         yield obs
     finally:
+        FakeSub.fail_squeue = False
         for obj, name, old in reversed(saved):
             setattr(obj, name, old)
 
